@@ -360,7 +360,7 @@ func runC13(c *Ctx) {
 		}
 	}
 	runC13Windows(c)
-	runLegacy(c, []string{"close", "rebalance"})
+	runLegacy(c, []string{"close", "rebalance"}, 1, 3)
 	runC13WireCases(c)
 	c.Emit("life", "per-op outputs of the real Dcp (Start ... Close ... late ops) and the final store vs Lifecycle.lrun", []string{"Base.Bytes", "Model.Stream", "Model.Lifecycle", "Corr.CorrStream", "Corr.CorrC13"},
 		"lhist", "chk_lhist", cases, reps, 40)
